@@ -277,6 +277,15 @@ class Opaque(object):
     __slots__ = ()
 
 
+class StrictEq(object):
+    """an unsupported value whose comparison with anything but its own kind fails"""
+
+    def __eq__(self, other):
+        return self.key == other.key  # AttributeError for str
+
+    __hash__ = None
+
+
 def h_unsupported(shape, L):
     """
     Fields of neither a supported nor a handled type are omitted, no failure.
@@ -284,11 +293,15 @@ def h_unsupported(shape, L):
     obj = beans.D3()
     obj.a = L["v"]
     obj._b = {"plain": L["w"]}
-    bad = {"object": Opaque(), "function": len, "complex": complex(1, 2), "bytes": b"x", "bean": beans.S1()}[shape["bad"]]
+    bad = {"object": Opaque(), "function": len, "complex": complex(1, 2), "bytes": b"x", "bean": beans.S1(),
+           "strict_eq": StrictEq()}[shape["bad"]]
     setattr(obj, "_D3__c", bad)
     wrapped = place(shape["pos"], obj, L)
     try:
-        dumped = jsonclass.dump(wrapped, config=Config())
+        if shape.get("ignore"):
+            dumped = jsonclass.dump(wrapped, config=Config(), ignore=["no_such_field"])
+        else:
+            dumped = jsonclass.dump(wrapped, config=Config())
     except Exception:  # noqa
         return 1
     if shape["bad"] != "bytes" and not only_plain(dumped):
